@@ -108,7 +108,7 @@ type c17B64 struct {
 
 func init() {
 	register(&Prop{ID: "C17", Run: c17Run,
-		Rule: "manifest: Secret/ConfigMap with generated metadata/extra fields (incl. the other kind's section names), 0-5 text items (strings: multi-line, unicode, numeric-looking, YAML-special; and non-string scalars) and 0-4 binary items (0-40 arbitrary bytes, incl. empty), serialised with yaml.v3, loaded through ManifestFromBytes/Reader/File, written, reloaded, then 0-8 Update/Remove edits on both facades, written and reloaded again. embedded: a YAML/JSON document embedded in an item (or absent), or properties spread over the string items, opened through k8s.YamlDoc/JsonDoc/Properties or NewBuilder()...Open()/Create() on a temp file, then 1-4 rounds of (0-6 edits, Save through the SAME Document handle, reopen and compare), in a third of the cases with a second manifest of either kind alive that is written and reloaded after every Save. Edits: AddValueAt / RemoveAt on the root builder, and (4 in 9, never by the same route twice in a row) calls through NESTED HANDLES the history holds - AddValue / Remove / AddContainer+AddValue / AddList+Append / AddValue of a leaf object the container already holds (one instance at two positions) on a nested container, Append / Set / MustSet(in range) / Clear on a nested list, the handle obtained by Lookup, by a chain of Child calls, or retained since the document was opened / an earlier round / returned by AddContainer or AddList (used only while Lookup still finds that very node there). Before and after every edit and around every Save the document is read through every read API (walk of Children/Items/Value, Flatten twice, Lookup of every flattened and composite path, Search for every leaf value, AsMap, Serialize as YAML and JSON, Clone, Equals, a sealed view taken at the start, every held handle's own walk / Flatten / AsMap / Items / Size / AsSlice): all must agree with the walk, with a freshly built document of the same content, with a plain-tree edit of the previous content (nested edits), and the maps returned by an earlier Flatten / AsMap must not change; what a properties Save must persist is the flattening of the WALKED document. savefault: the embedded histories again, with at least one round whose Save fails in the embedded-document encoder (a +Inf/-Inf/NaN float leaf put into a JsonDoc document; a user-supplied encoder given to NewBuilder().Encoder(...) that returns an error before or after doing the standard encoder's work), attempted 1-3 times: after every failed Save the file is read back and must still be the previous manifest (loads, same item maps, same fields outside the data sections, embedded document reopens as last saved); the cause is then repaired and the same handle saves, with the usual clauses. interleave: 2-3 manifests of either kind alive at once, a random schedule of load / Update / Remove / write(+reload) steps over them, every write compared with that manifest's own expected items, sections and non-data fields, every step followed by a look at the items of all alive manifests. entry (direct predicates only): one manifest body of an exact size - natural, or just under / at / just over / well over 512 B, 4 KiB, 64 KiB, 1 MiB, the bulk being one long text item, many text items, one long binary item or a long field outside the data sections, optionally multi-byte UTF-8 with a character across the threshold offset - loaded through ManifestFromBytes, ManifestFromFile and ManifestFromReader (reader handing the bytes out whole / in chunks of 1 B ... 1 MiB / one by one / last chunk together with io.EOF, preceded by 0-2 readers failing after 0 ... n-1 bytes that must yield an error and no manifest): the three show the generated items and the same items, WriteTo (on the reader-loaded one preceded by 0-2 writers failing part-way, which must be reported) gives byte-identical bodies that reload through the reader entry point with the same items and the same non-data fields, also after 0-3 facade edits. WRITTEN FORM (c17_form.go): a third of the manifest cases are not yaml.Marshal output but written the way people and tools write manifests, rendered by yaml.v3's emitter from a styled node tree: base64 text of a binary item on one line, ended by a line break (block scalar `|` with the default chomping), wrapped at 64 / 76 (PEM / MIME / `base64 -w`) or 1-20 columns with LF or CRLF breaks, with or without the final line break, with a line break in front, as literal / folded block or single- / double-quoted scalar; string text items as literal / folded / quoted scalars; quoted item keys; sections as flow mappings; comments; CRLF line ends of the file - item lengths include 47-50, 56-59, 100, 101 bytes so that 64 / 76-column wrapping occurs with every length mod 3. One manifest case in three takes its item keys from a wide pool (letter-case twins, white space, Unicode composition twins, supplementary-plane characters, U+FFFD, YAML indicators, number / boolean / null spellings and long digit strings as STRING keys, the empty key). String values include white-space-only / CRLF / NBSP strings, supplementary-plane characters, U+FFFD, digit strings at 2^53 / 2^63 / 2^64, signed zeros, YAML 1.1 / 1.2 number and boolean spellings and YAML indicators (all pre-filtered by a yaml.v3 round trip). MANIFEST VOCABULARY IN THE DATA (round 8): the string pool of text items and facade updates includes texts that are themselves manifests or written in the manifest vocabulary (kind / apiVersion / metadata / data / stringData / binaryData lines as YAML - indented, quoted, commented, behind a document marker -, JSON and properties, kinds other than Secret / ConfigMap, the bare words Pod / Secret / ConfigMap), the item-key pool includes `kind` and `data`, and one embedded document in four takes its keys from kind / metadata / data / apiVersion / a / b. BUILDER REUSE (embedded cases opened through NewBuilder()...Open() / Create(), two in three of them): after the Document was handed out and before its first edit, the same Builder value is used for the next manifest - Manifest(other file), Manifest(other file).Open() (that document stays alive), Manifest(new file).Create(...), Encoder(...) / Decoder(...) for another item and format, one or two of these - and the history of edits / Saves / reopens through the first Document is judged by the usual clauses, plus: the other manifest file keeps its bytes. malformed: YAML assembled from pools of bad kinds / sections / values. b64: random bytes and mutated encodings against encoding/base64. A manifest case is non-trivial when it has at least one item; an embedded case when it has at least one edit; a savefault case when at least one Save failed; an entry case when it has at least one item; an interleave case when two manifests with at least one item between them are alive at a write; distinct = distinct canonical case JSON.",
+		Rule: "manifest: Secret/ConfigMap with generated metadata/extra fields (incl. the other kind's section names), 0-5 text items (strings: multi-line, unicode, numeric-looking, YAML-special; and non-string scalars) and 0-4 binary items (0-40 arbitrary bytes, incl. empty), serialised with yaml.v3, loaded through ManifestFromBytes/Reader/File, written, reloaded, then 0-8 Update/Remove edits on both facades, written and reloaded again. embedded: a YAML/JSON document embedded in an item (or absent), or properties spread over the string items, opened through k8s.YamlDoc/JsonDoc/Properties or NewBuilder()...Open()/Create() on a temp file, then 1-4 rounds of (0-6 edits, Save through the SAME Document handle, reopen and compare), in a third of the cases with a second manifest of either kind alive that is written and reloaded after every Save. Edits: AddValueAt / RemoveAt on the root builder, and (4 in 9, never by the same route twice in a row) calls through NESTED HANDLES the history holds - AddValue / Remove / AddContainer+AddValue / AddList+Append / AddValue of a leaf object the container already holds (one instance at two positions) on a nested container, Append / Set / MustSet(in range) / Clear on a nested list, the handle obtained by Lookup, by a chain of Child calls, or retained since the document was opened / an earlier round / returned by AddContainer or AddList (used only while Lookup still finds that very node there). Before and after every edit and around every Save the document is read through every read API (walk of Children/Items/Value, Flatten twice, Lookup of every flattened and composite path, Search for every leaf value, AsMap, Serialize as YAML and JSON, Clone, Equals, a sealed view taken at the start, every held handle's own walk / Flatten / AsMap / Items / Size / AsSlice): all must agree with the walk, with a freshly built document of the same content, with a plain-tree edit of the previous content (nested edits), and the maps returned by an earlier Flatten / AsMap must not change; what a properties Save must persist is the flattening of the WALKED document. savefault: the embedded histories again, with at least one round whose Save fails in the embedded-document encoder (a +Inf/-Inf/NaN float leaf put into a JsonDoc document; a user-supplied encoder given to NewBuilder().Encoder(...) that returns an error before or after doing the standard encoder's work), attempted 1-3 times: after every failed Save the file is read back and must still be the previous manifest (loads, same item maps, same fields outside the data sections, embedded document reopens as last saved); the cause is then repaired and the same handle saves, with the usual clauses. interleave: 2-3 manifests of either kind alive at once, a random schedule of load / Update / Remove / write(+reload) steps over them, every write compared with that manifest's own expected items, sections and non-data fields, every step followed by a look at the items of all alive manifests. entry (direct predicates only): one manifest body of an exact size - natural, or just under / at / just over / well over 512 B, 4 KiB, 64 KiB, 1 MiB, the bulk being one long text item, many text items, one long binary item or a long field outside the data sections, optionally multi-byte UTF-8 with a character across the threshold offset - loaded through ManifestFromBytes, ManifestFromFile and ManifestFromReader (reader handing the bytes out whole / in chunks of 1 B ... 1 MiB / one by one / last chunk together with io.EOF, preceded by 0-2 readers failing after 0 ... n-1 bytes that must yield an error and no manifest): the three show the generated items and the same items, WriteTo (on the reader-loaded one preceded by 0-2 writers failing part-way, which must be reported) gives byte-identical bodies that reload through the reader entry point with the same items and the same non-data fields, also after 0-3 facade edits. WRITTEN FORM (c17_form.go): a third of the manifest cases are not yaml.Marshal output but written the way people and tools write manifests, rendered by yaml.v3's emitter from a styled node tree: base64 text of a binary item on one line, ended by a line break (block scalar `|` with the default chomping), wrapped at 64 / 76 (PEM / MIME / `base64 -w`) or 1-20 columns with LF or CRLF breaks, with or without the final line break, with a line break in front, as literal / folded block or single- / double-quoted scalar; string text items as literal / folded / quoted scalars; quoted item keys; sections as flow mappings; comments; CRLF line ends of the file - item lengths include 47-50, 56-59, 100, 101 bytes so that 64 / 76-column wrapping occurs with every length mod 3. One manifest case in three takes its item keys from a wide pool (letter-case twins, white space, Unicode composition twins, supplementary-plane characters, U+FFFD, YAML indicators, number / boolean / null spellings and long digit strings as STRING keys, the empty key). String values include white-space-only / CRLF / NBSP strings, supplementary-plane characters, U+FFFD, digit strings at 2^53 / 2^63 / 2^64, signed zeros, YAML 1.1 / 1.2 number and boolean spellings and YAML indicators (all pre-filtered by a yaml.v3 round trip). MANIFEST VOCABULARY IN THE DATA (round 8): the string pool of text items and facade updates includes texts that are themselves manifests or written in the manifest vocabulary (kind / apiVersion / metadata / data / stringData / binaryData lines as YAML - indented, quoted, commented, behind a document marker -, JSON and properties, kinds other than Secret / ConfigMap, the bare words Pod / Secret / ConfigMap), the item-key pool includes `kind` and `data`, and one embedded document in four takes its keys from kind / metadata / data / apiVersion / a / b. BUILDER REUSE (embedded cases opened through NewBuilder()...Open() / Create(), two in three of them): after the Document was handed out and before its first edit, the same Builder value is used for the next manifest - Manifest(other file), Manifest(other file).Open() (that document stays alive), Manifest(new file).Create(...), Encoder(...) / Decoder(...) for another item and format, one or two of these - and the history of edits / Saves / reopens through the first Document is judged by the usual clauses, plus: the other manifest file keeps its bytes. rawtext (direct predicates only, c17_rawtext.go): 400 manifests whose text items - 0-3 initial ones and the arguments of StringData().Update among 0-5 facade edits - are given as BYTES, about half of them not valid UTF-8 (single bytes >= 0x80 between ASCII as in legacy single-byte encodings, a multi-byte character cut short, lone continuation bytes, overlong forms, encoded surrogates, 0xFE / 0xFF, UTF-16 with BOM; pre-filtered by a yaml.v3 string round trip, which carries such a string as a !!binary scalar): loaded items, the facades after every edit, and the reload of the first WriteTo, of a second WriteTo of the same manifest and of a WriteTo of the reloaded manifest must all show exactly the expected text (byte for byte, in the text section) and binary items. malformed: YAML assembled from pools of bad kinds / sections / values. b64: random bytes and mutated encodings against encoding/base64. A manifest case is non-trivial when it has at least one item; an embedded case when it has at least one edit; a savefault case when at least one Save failed; an entry case when it has at least one item; an interleave case when two manifests with at least one item between them are alive at a write; distinct = distinct canonical case JSON.",
 		Assumptions: []string{
 			"yaml.v3 round-trips the generated manifest bodies (strings are pre-filtered by an independent Marshal/Unmarshal round trip; no timestamps, no NaN)",
 			"embedded YAML documents hold int/string/bool/null scalars, embedded JSON documents string/bool/float64/null scalars (the codecs' number normalisation is C01's concern); keys are path-safe",
@@ -358,6 +358,7 @@ func c17Run(c *Ctx) {
 		c.Tick()
 		c.Do("b64", c17GenB64(r))
 	}
+	c17RunRawText(c) // c17_rawtext.go (last: the cases above stay what they were for a given seed)
 }
 
 func c17GenEmb(r *rand.Rand) c17Emb {
@@ -730,6 +731,8 @@ func c17Eval(c *Ctx, kind string, raw []byte) {
 		c17EvalMalformed(c, raw)
 	case "b64":
 		c17EvalB64(c, raw)
+	case "rawtext":
+		c17EvalRawText(c, raw) // c17_rawtext.go
 	}
 }
 
